@@ -388,6 +388,30 @@ pub fn check(case: &Case, idx: u64, acc: &mut Acc) {
                     }
                 }
             }
+            // calendars resolved on ANOTHER thread (its own first use of every name) answer as the rules say, and a
+            // calendar resolved there is the calendar resolved here
+            {
+                let names: Vec<String> = FULL.iter().map(|s| s.to_string()).collect();
+                let got: Vec<(String, Vec<i64>)> = std::thread::spawn(move || {
+                    names
+                        .iter()
+                        .rev()
+                        .map(|n| {
+                            let c = get_calendar_by_name(n).unwrap();
+                            (n.clone(), (DAY_MIN..=day_max()).filter(|z| weekday(*z) < 5 && c.is_holiday(&to_ndt(*z))).collect())
+                        })
+                        .collect()
+                })
+                .join()
+                .expect("resolver thread");
+                for (n, hols) in got.iter() {
+                    acc.eval();
+                    let want: Vec<i64> = models[n.as_str()].keys().cloned().filter(|z| weekday(*z) < 5).collect();
+                    if *hols != want {
+                        acc.violate(&format!("sequence/{}/differs-on-another-thread", n), idx, cj(), json!(want.len()), json!(hols.len()));
+                    }
+                }
+            }
             for a in FULL {
                 for b in FULL {
                     if a == b {
